@@ -36,7 +36,9 @@ RULE_ADDED = (
               ' lists mixing headers and non-headers. '
               ' '
               'Round 12: every member also under names that are nearly its own (other case, bla'
-              "nks, a neighbour's name). ")
+              "nks, a neighbour's name). "
+              ' '
+              'Round 14: the device is of each of the three networks (by shard). ')
 RULE = RULE + " " + RULE_ADDED.strip()
 ASSUMPTIONS = [
     "the reference classifier (pv/oracle/docs_protocol.py) is a reading of docs/protocol.md and "
@@ -476,7 +478,7 @@ def shards(tier, seed):
     return [{"shard": i, "n": n, "tier": tier, "seed": seed} for i in range(n)]
 
 
-def make_device(rng, platform="ledger"):
+def make_device(rng, platform="ledger", network=None):
     # every signature the device hands out is well-formed DER, of every shape a real
     # device produces: r and s of 1..33 bytes (minimal-length integers)
     srng = random.Random(rng.getrandbits(32))
@@ -498,6 +500,9 @@ def make_device(rng, platform="ledger"):
                     adv_policy={"any_brother_count": True}, any_path=True, signatures=sigs())
     if platform == "sgx":
         dev.unlocked = True
+    if network is not None:
+        # (checkpoint, minimum difficulty, network byte: 1 mainnet, 2 testnet, 3 regtest)
+        dev.params = bytes(32) + (1).to_bytes(36, "big") + bytes([network])
     return dev
 
 
@@ -533,7 +538,7 @@ def check_one(acc, st, v1, name, label, req):
     from ..stack import Stack
     key = v1
     if key not in st:
-        dev = make_device(random.Random(5))
+        dev = make_device(random.Random(5), network=st.get("network"))
         s = Stack(dev, version_one=v1)
         s.__enter__()
         s.initialize()
@@ -568,7 +573,8 @@ def check_one(acc, st, v1, name, label, req):
     del s.bus.events[:]
     del dev.sign_records[:]
     del dev.adv_records[:]
-    case = {"v1": v1, "request": shrink(req) if len(line) > 200000 else req}
+    case = {"v1": v1, "request": shrink(req) if len(line) > 200000 else req,
+            "network": st.get("network")}
     cmd = req.get("command") if isinstance(req, dict) else None
     cmdname = cmd if isinstance(cmd, str) and len(cmd) < 30 else "?"
     reply = None
@@ -624,11 +630,14 @@ def check_one(acc, st, v1, name, label, req):
 
 def run_shard(spec, acc):
     env.setup()
-    st = {"pending_mode": 7}
+    # the device is of one of the three networks (what it reports about itself is no input
+    # to how requests are classified)
+    st = {"pending_mode": 7, "network": [1, 2, 3, None][spec.get("shard", 0) % 4]}
+    acc.count("shards_on_a_device_of_network_%s" % st["network"])
     for v1, name, label, req in gen_requests(spec):
         check_one(acc, st, v1, name, label, req)
     for k, v in st.items():
-        if k != "pending_mode":
+        if k not in ("pending_mode", "network"):
             v[0].__exit__(None, None, None)
     if acc.counters.get("judged_with_repair_pending", 0) == 0:
         acc.notes.append("no request was judged with a repair pending in this shard")
@@ -636,4 +645,5 @@ def run_shard(spec, acc):
 
 def replay(case, acc):
     env.setup()
-    check_one(acc, {}, case["v1"], "replay", "replay", expand(case["request"]))
+    check_one(acc, {"network": case.get("network")}, case["v1"], "replay", "replay",
+              expand(case["request"]))
